@@ -3,7 +3,7 @@ import base64
 import itertools
 import random
 
-from corr.common import Tally, hx
+from corr.common import Tally, hx, exn_class
 from corr import connrun, wsrun
 from corr.recvprops import KEYS, legal_stream, encode_frames
 from sim.sock import accept_for, server_frame
@@ -110,9 +110,93 @@ def frame_inputs(tier, rng):
         yield bytes(rng.randrange(256) for _ in range(rng.randrange(1, 40)))
 
 
+def wouldblock_transport(T):
+    """A transport that reports "would block" (EAGAIN) instead of blocking, with a finite timeout -- what a TLS or non-blocking socket
+    does: after the timeout of silence every call ends with a documented exception; it never polls for ever."""
+    import base64
+    import hashlib
+    import socket as so
+    import threading
+    import websocket
+
+    class WB:
+        def __init__(self, real):
+            self.real = real
+
+        def recv(self, n):
+            return self.real.recv(n, so.MSG_DONTWAIT)          # BlockingIOError(EAGAIN) when nothing is there
+
+        def send(self, data):
+            return self.real.send(data)
+
+        def gettimeout(self):
+            return 0.05
+
+        def settimeout(self, t):
+            pass
+
+        def fileno(self):
+            return self.real.fileno()
+
+        def close(self):
+            self.real.close()
+
+        def shutdown(self, how=None):
+            pass
+
+    def server(peer, reply_head, then):
+        req = b""
+        while b"\r\n\r\n" not in req:
+            req += peer.recv(4096)
+        key = [l.split(b":", 1)[1].strip() for l in req.split(b"\r\n") if l.lower().startswith(b"sec-websocket-key")][0]
+        acc = base64.b64encode(hashlib.sha1(key + b"258EAFA5-E914-47DA-95CA-C5AB0DC85B11").digest())
+        head = b"HTTP/1.1 101 SP\r\nUpgrade: websocket\r\nConnection: Upgrade\r\nSec-WebSocket-Accept: " + acc + b"\r\n\r\n"
+        peer.sendall(head[:reply_head] if reply_head else head)
+        if then:
+            peer.sendall(then)
+
+    for name, reply_head, then, calls in (("silence-after-handshake", 0, b"", 1), ("half-a-frame", 0, b"\x82\x7e\x01", 1), ("half-a-status-line", 12, b"", 0),
+                                          ("frame-then-silence", 0, b"\x81\x02hi", 2)):
+        a, b = so.socketpair()
+        out = {}
+
+        def client():
+            try:
+                ws = websocket.WebSocket()
+                ws.connect("ws://sim.test/", socket=WB(a))
+                res = []
+                for _ in range(calls):
+                    try:
+                        res.append("ok:" + repr(ws.recv()))
+                    except Exception as e:
+                        res.append("raise:" + exn_class(e))
+                out["res"] = res
+            except Exception as e:
+                out["res"] = ["connect-raise:" + exn_class(e)]
+        ts = threading.Thread(target=server, args=(b, reply_head, then), daemon=True)
+        tc = threading.Thread(target=client, daemon=True)
+        ts.start()
+        tc.start()
+        tc.join(3.0)
+        hung = tc.is_alive()
+        T.case(("wouldblock", name), nontrivial=True, bucket="wouldblock", sample={"scenario": name, "result": out.get("res"), "hung": hung})
+        try:
+            b.close()           # lets a polling client thread die
+            a.close()
+        except OSError:
+            pass
+        res = out.get("res") or []
+        if hung or not res or not res[-1].split(":", 1)[0].endswith("raise") or not documented(res[-1].split(":", 1)[1]):
+            T.fail("spec", {"kind": "wouldblock", "scenario": name}, "a documented exception once the peer has been silent for the timeout", f"hung={hung} results={res}",
+                   {"site": "_socket.recv", "cls": "polls-forever" if hung else "internal-exception"},
+                   what="on a transport that reports 'would block' the call did not end after the timeout")
+            return
+
+
 def run(ctx):
     T = Tally()
     rng = random.Random(ctx.seed)
+    wouldblock_transport(T)
     # ---- handshake phase
     hs = list(dict.fromkeys(hs_inputs(ctx.tier, rng)))
     scs = []
@@ -196,6 +280,10 @@ def search(ctx):
 
 
 def replay(ctx, sc):
+    if sc.get("kind") == "wouldblock":
+        T = Tally()
+        wouldblock_transport(T)
+        return T.failures[0] if T.failures else None
     if sc.get("bytes") is None:
         return {"note": "input too long; rerun the check"}
     b = bytes.fromhex(sc["bytes"])
